@@ -194,6 +194,10 @@ def judgeE2E (id : String) (hostCfg : Option Bytes) (aks secrets : List Bytes) (
       let r : SigV2Spec.Req := ⟨method, headers, path, pairs.getD [], specVhBucket hostCfg hostHeader⟩
       let sv := SigV2Spec.acceptedKey hmac b64 (SigV2.lookupIn table) lo r
       let sv' := SigV2Spec.acceptedKey hmac b64 (SigV2.lookupIn table) hi r
+      -- `prepare` refuses a virtual-host bucket with a port (`check_bucket_name`) before the signature check
+      let preAuth : Option String := match vh with
+        | some b => if b.any (· = 58) then some "InvalidBucketName" else none
+        | none => none
       if mv ≠ mv' || sv ≠ sv' then unmodelled id "clock-edge" else
       -- what the implementation did
       let implKey : Option Bytes := match access.toList with
@@ -204,17 +208,21 @@ def judgeE2E (id : String) (hostCfg : Option Bytes) (aks secrets : List Bytes) (
       else if backend ≠ "-" && backendWho ≠ access then
         specfail id "backend-identity-differs" s!"access={access} backend={backend}"
       else if implKey ≠ sv then
-        let cls := match credsClass r with
-          | some c => c
-          | none =>
-            let c := shapeClass r
-            if c ≠ "other" then c
-            else if vh ≠ specVhBucket hostCfg hostHeader then "vhost-bucket-derivation" else "other"
+        let cls :=
+          if vh ≠ specVhBucket hostCfg hostHeader then "vhost-bucket-derivation"
+          else match credsClass r with
+            | some c => c
+            | none => shapeClass r
         specfail id cls s!"spec={(sv.map hexEncode).getD "not-accepted"} impl={access}/{backend}/{code} tag={tag}"
       else if (expect = "accept" && sv.isNone) || (expect = "reject" && sv.isSome) then
         disagree id s!"signer-expects-{expect}" s!"spec={(sv.map hexEncode).getD "not-accepted"} tag={tag}"
       else
         let implStr := s!"{access}/{code}"
+        match preAuth with
+        | some c =>
+          if access = "-" && backend = "-" && code = c then agree id s!"pre-auth-{c}:{tag}"
+          else disagree id s!"pre-auth:{c}" implStr
+        | none =>
         match mv with
         | .accept ak =>
           if access = "+" ++ hexEncode ak then agree id s!"accept:{tag}"
